@@ -78,6 +78,8 @@ impl Modulator for Lfo {
 	}
 
 	fn finished(&self) -> bool {
+		#[cfg(kira_verif)]
+		crate::verif::yield_point("lfo.removed.load");
 		self.shared.removed.load(Ordering::SeqCst)
 	}
 }
